@@ -457,6 +457,19 @@ def forms(ctx):
         elif _gt(np.max(np.abs(np.asarray(mg.weights) - atw * aimw)), 1e-12 * np.max(np.abs(atw))):
             ctx.violation(f"forms:{name.split(':')[0]}:weights-not-atomic-times-aim", f"{name}: weights differ from atomic weights x Becke "
                           f"weights (order 3) of the hand-built grids", case)
+        else:
+            # the molecular integral of one, two and three functions is the weighted sum of their product, and equals the
+            # sum over atoms of the atomic-grid integrals of w_A f
+            f1, f2, f3 = np.exp(-0.5 * np.sum(pts**2, axis=1)), 1.0 + pts[:, 0] ** 2, np.cos(pts[:, 2])
+            w = atw * aimw
+            for k, fs in enumerate(((f1,), (f1, f2), (f1, f2, f3))):
+                want = float(np.sum(w * np.prod(fs, axis=0)))
+                per_atom = sum(float(hand[a].integrate((aimw * np.prod(fs, axis=0))[idx[a]:idx[a + 1]])) for a in range(n))
+                got = float(mg.integrate(*[x.copy() for x in fs]))
+                sc = float(np.sum(np.abs(w * np.prod(fs, axis=0))))
+                if _gt(abs(got - want), 1e-12 * sc) or _gt(abs(per_atom - want), 1e-12 * sc):
+                    ctx.violation(f"forms:{name.split(':')[0]}:integral-of-{k + 1}-functions", f"{name}: integrate of {k + 1} function(s) = {got!r}, "
+                                  f"weighted sum {want!r}, sum of atomic integrals of w_A f {per_atom!r}", case)
 
 
 def user_weights(ctx):
